@@ -11,7 +11,8 @@ DESCRIPTION = {
              "the registered / carried / generic runtime-error URI, args == list(exc.args), kwargs == the exception's kwargs (+ 'traceback' iff enabled); the caller's pending call "
              "fails exactly once with an instance of the class registered for that URI built from those args/kwargs, else with ApplicationError carrying URI, args and kwargs; the "
              "error is never lost.  Non-trivial = non-empty args and kwargs with a registered class, or a fallback path; distinct by (kind, payload shape, serializer)."),
-    "assumptions": ["kwargs keys that ApplicationError/CallResult reserve for metadata (enc_algo, callee, callee_authid, callee_authrole, forward_for, traceback) are not generated as application kwargs"],
+    "assumptions": ["kwargs keys that ApplicationError/CallResult reserve for metadata (enc_algo, callee, callee_authid, callee_authrole, forward_for) are not generated as application kwargs; an application "
+                    "error that already carries a 'traceback' kwarg is generated: with traceback forwarding on the forwarded traceback replaces it, otherwise it travels unchanged"],
 }
 
 
@@ -74,7 +75,7 @@ def strategy():
         "kind": st.sampled_from(["app", "app", "decorated", "defined", "undefined", "undefined-builtin", "nokwargs", "onearg", "exploding", "subclass-defined", "subclass-undefined", "decorated-subclass", "decorated-base"]),
         "uri": st.sampled_from(["com.myapp.error.custom", "wamp.error.not_authorized", "com.myapp.error.decorated", "a.b"]),
         "args": vals, "kwargs": kws, "tb": st.booleans(), "caller_knows": st.booleans(), "async_endpoint": st.booleans(),
-        "ser": st.sampled_from(["json", "msgpack", "cbor", "ubjson"])})
+        "ser": st.sampled_from(["json", "msgpack", "cbor", "ubjson"]), "own_tb": st.sampled_from([False, False, False, True])})
 
 
 def check_flow(c):
@@ -102,8 +103,12 @@ def check_flow(c):
         cls = None
         expect_uri = uri
         if kind == "app":
+            if c.get("own_tb"):
+                # the error already carries a kwarg named 'traceback' (e.g. an ApplicationError received from another callee and passed on)
+                kwargs["traceback"] = ["inner frame 1", "inner frame 2"] if len(args) % 2 else "Traceback (most recent call last):\n  inner frame"
+
             def make():
-                return ApplicationError(uri, *args, **kwargs)
+                return ApplicationError(uri, *args, **dict(kwargs))
         elif kind == "decorated":
             cls = classes["Decorated"]
             callee.session.define(cls)
@@ -215,9 +220,12 @@ def check_flow(c):
         tb = wire_kwargs.pop("traceback", None)
         if c["tb"] and tb is None:
             raise Violation("C18|traceback-missing", "traceback_app enabled but no traceback kwarg", c)
-        if not c["tb"] and tb is not None:
+        own_tb = kwargs.get("traceback")
+        if not c["tb"] and tb is not None and own_tb is None:
             raise Violation("C18|traceback-leaked", "traceback sent although traceback_app is off", c)
-        if wire_args != norm(args) or wire_kwargs != norm(kwargs):
+        if not c["tb"] and own_tb is not None and norm(tb) != norm(own_tb):
+            raise Violation("C18|wire-payload-differs|" + kind, "the error's own 'traceback' kwarg %r arrived as %r" % (own_tb, tb), c)
+        if wire_args != norm(args) or wire_kwargs != norm({k_: v_ for k_, v_ in kwargs.items() if k_ != "traceback"}):
             raise Violation("C18|wire-payload-differs|" + kind, "ERROR args=%r kwargs=%r, raised args=%r kwargs=%r" % (brief(wire_args), brief(wire_kwargs), brief(args), brief(kwargs)), c)
         # router forwards to the caller
         if kind == "exploding":
